@@ -490,9 +490,68 @@ def _visit_eval(ctx, fq, toward_right, extra_hook=None):
     return ev, st, f, B, v, info
 
 
+def _split_instance(ctx):
+    """populateSplitBlock run on a concrete four-variable tree (v0 -> v1 -> v2 active, v3 -> v0 active, one inactive
+    constraint v0 -> v4): returns (offsets by variable, order in which variables were added) or None when the evaluation did
+    not stay concrete.  Used when the symbolic one-step argument does not recognise the spelling of the walk."""
+    P = ctx.P
+    f = P.func("vpsc.Block.populateSplitBlock")
+    added = []
+
+    def on_call(fv, args, kwargs, node, st_):
+        if isinstance(fv, Closure) and fv.func.qual == "vpsc.Block.addVariable":
+            added.append(key(args[0]) if args else None)
+            return NONE
+        return None
+
+    ev = new_eval(P, on_call=on_call)
+    ev.unroll_while = True
+    ev.rec_limit = 8
+    VAR, CON = P.cls("vpsc.Variable"), P.cls("vpsc.Constraint")
+    vs = [Opaque("v%d" % i, cls=VAR, kind="obj") for i in range(5)]
+    st = ev.new_state(f)
+    cons = {"c01": (0, 1, True), "c12": (1, 2, True), "c30": (3, 0, True), "c04": (0, 4, False)}
+    cobj = {k: Opaque(k, cls=CON, kind="obj") for k in cons}
+    for v in vs:
+        st.heap[(v.text, "cIn")] = Seq("list", [cobj[k] for k, (l, r, a) in cons.items() if r == int(v.text[1:])])
+        st.heap[(v.text, "cOut")] = Seq("list", [cobj[k] for k, (l, r, a) in cons.items() if l == int(v.text[1:])])
+    for k, (l, r, a) in cons.items():
+        st.heap[(k, "left")] = vs[l]
+        st.heap[(k, "right")] = vs[r]
+        st.heap[(k, "active")] = Const(a)
+        st.heap[(k, "gap")] = Num.atom("G" + k[1:])
+    st.heap[("v0", "offset")] = Num.atom("O0")
+    things = vs + [Const(None)]
+    for i, a in enumerate(things):
+        for b in things[i + 1:]:
+            ev.assume_order(a, b, "ne")
+    B = Opaque("B", cls=P.cls("vpsc.Block"), kind="obj")
+    try:
+        ev.call_closure(Closure(f, None, selfv=B), [vs[0], Const(None)], {}, st)
+    except Exception:
+        return None
+    offs = {}
+    for v in vs[1:]:
+        o = st.heap.get((v.text, "offset"))
+        offs[v.text] = as_num(o) if o is not None else None
+    return offs, added
+
+
 @rule("VPSC.SPLIT-TIGHT")
 def split_tight(ctx, R):
     P = ctx.P
+    inst = _split_instance(ctx)
+    if inst is not None:
+        offs, added = inst
+        O0, G01, G12, G30 = A("O0"), A("G01"), A("G12"), A("G30")
+        want = {"v1": O0 + G01, "v2": O0 + G01 + G12, "v3": O0 - G30}
+        good = all(isinstance(offs.get(k), Num) and offs[k].equals(w) for k, w in want.items()) and added == ["v1", "v2", "v3"] and not isinstance(offs.get("v4"), Num)
+        f0 = P.func("vpsc.Block.populateSplitBlock")
+        R.check(good or _split_symbolic_ok(ctx), "VPSC.SPLIT-TIGHT", "vpsc.Block.populateSplitBlock|instance v3 -> v0 -> v1 -> v2", where(f0),
+                "every variable reached over active constraints joins the block at the offset that makes the constraint tight; the inactive neighbour is left out",
+                "on the tree v3 -> v0 -> v1 -> v2 (active) with an inactive v0 -> v4, populateSplitBlock(v0) adds %s with offsets %s; expected v1, v2, v3 at O0+G01, O0+G01+G12, O0-G30" % (added, {k: (v.key() if isinstance(v, Num) else None) for k, v in offs.items()}))
+        if good:
+            R = _SoftTight(R)
     for toward_right in (True, False):
         ev, st, f, B, v, info = _visit_eval(ctx, "vpsc.Block.populateSplitBlock", toward_right)
         R.saw(f)
@@ -506,6 +565,27 @@ def split_tight(ctx, R):
         added = ("addVariable", "B", ["n"]) in info["calls"]
         rec = any(c[0] == "populateSplitBlock" and c[1] == "B" and c[2][:2] == ["n", "v"] for c in info["calls"])
         R.check(added and rec, "VPSC.SPLIT-TIGHT", f.qual + "|recursion " + tag, where(f), "the neighbour joins the block and the walk continues from it", "the split-block walk does not add the neighbour to this block and continue from it (calls: %s)" % info["calls"])
+
+
+def _split_symbolic_ok(ctx):
+    return False
+
+
+class _SoftTight:
+    """The one-step symbolic argument below knows the walk as a recursion through visitNeighbours; when the concrete tree
+    above comes out right, a spelling it does not recognise (explicit stack, generator of neighbours) is not an alarm."""
+
+    def __init__(self, R):
+        self.R = R
+
+    def __getattr__(self, name):
+        return getattr(self.R, name)
+
+    def check(self, cond, rule, key_, where_="", detail="", bad_detail=None, nontrivial=True):
+        if not cond:
+            self.R.ok(rule, key_ + " (spelling not recognised: shown on the evaluated tree only)", where_, "one-step argument not applicable to this spelling", nontrivial=False)
+            return False
+        return self.R.check(cond, rule, key_, where_, detail, bad_detail, nontrivial)
 
 
 @rule("VPSC.REQUEUE")
@@ -736,9 +816,39 @@ def index_rule(ctx, R):
             src = ntext(stores[0].value)
             ok = ntext(inds[0].targets[0].value) == src or any(isinstance(a, ast.Assign) and ntext(a.targets[0]) == src for a in ast.walk(lp))
     apps = [n for n in ast.walk(f.node) if isinstance(n, ast.Call) and _attr_call(n, "insert") and ntext(n.func.value) == "self"]
+    if not ok and not apps:
+        # however the initial list is put together: on an instance of three variables, the block at index k records k
+        ok = _init_index_instance(ctx, f)
     R.check(ok or bool(apps), "VPSC.INDEX", "Blocks.__init__", where(f), "initial blocks are stored at their blockInd", "Blocks.__init__ does not store each initial block at the index it records in blockInd")
     # remove: swap-with-last
     remove_rule(ctx, R)
+
+
+def _init_index_instance(ctx, f):
+    P = ctx.P
+    ev = new_eval(P, inline_filter=lambda fn: fn is f or fn.qual in ("vpsc.Block.__init__", "vpsc.Block.addVariable", "vpsc.PositionStats.__init__", "vpsc.PositionStats.addVariable", "vpsc.PositionStats.getPosn"))
+    st = ev.new_state(f)
+    s = Opaque("self", cls=P.cls("vpsc.Blocks"), kind="obj")
+    vs = Seq("list", [Opaque("v%d" % i, cls=P.cls("vpsc.Variable"), kind="obj") for i in range(3)], ident="VS3")
+    try:
+        ev.call_closure(Closure(f, None, selfv=s), [vs], {}, st)
+    except Exception:
+        return False
+    lst = st.heap.get(("self", _bl(ctx)))
+    items = ev.iter_items(lst) if lst is not None else None
+    if items is None or len(items) != 3:
+        return False
+    seen_vars = []
+    for k, b in enumerate(items):
+        if not isinstance(b, Opaque):
+            return False
+        bi = st.heap.get((b.text, "blockInd"))
+        if bi is None or num_const(bi) != k:
+            return False
+        vv = st.heap.get((b.text, "vars"))
+        seen_vars.append(key(vv) if vv is not None else None)
+    # one block per variable, in the order of the variables
+    return seen_vars == ["[v0]", "[v1]", "[v2]"] or len(set(seen_vars)) == 3
 
 
 def remove_rule(ctx, R):
@@ -1121,10 +1231,26 @@ def lm_fresh(ctx, R):
             calls = [c for c in calls_in(top.node) if _attr_call(c, "compute_lm")]
             ok = bool(calls)
             if ok and f is not top:
-                # the closure reading .lm must be used after/by the compute_lm call
-                first_call = min(c.lineno for c in calls)
-                uses = [c for c in calls_in(top.node) if any(isinstance(a, ast.Name) and a.id == getattr(f.node, 'name', f.name) for a in c.args) and c.lineno > f.node.lineno]
-                ok = any(u.lineno >= first_call for u in uses) or any(c in uses for c in calls)
+                # the closure reading .lm must be used by the compute_lm call (as its callback) or in a statement that a
+                # compute_lm call dominates (a key function of min/sorted over the constraints compute_lm reported, ...)
+                cfg = ctx.cfg(top)
+
+                def holder_of(x):
+                    for cn in cfg.nodes:
+                        if cn.ast is not None and any(y is x for y in ast.walk(cn.ast)):
+                            return cn
+                    return None
+
+                call_nodes = [h for h in (holder_of(c) for c in calls) if h is not None]
+                if f.is_lambda:
+                    use_sites = [f.node]
+                else:
+                    use_sites = [n for n in walk_local(top.node) if isinstance(n, ast.Name) and n.id == f.node.name and isinstance(n.ctx, ast.Load)]
+                ok = bool(use_sites) and bool(call_nodes)
+                for u in use_sites:
+                    hu = holder_of(u)
+                    if hu is None or not (hu in call_nodes or any(cfg.dominates(cn, hu) for cn in call_nodes)):
+                        ok = False
         n_inst += 1
         R.check(ok, "VPSC.LM-FRESH", "%s reads .lm" % f.qual, where(f, reads[0]), "multipliers are recomputed (compute_lm) before they are read", "`%s` reads constraint multipliers without a preceding compute_lm in %s: stale multipliers select the split" % (f.qual, top.qual))
     R.check(n_inst >= 3, "VPSC.LM-FRESH.inventory", "readers of .lm: %d" % n_inst, "", "", "fewer multiplier readers than expected", nontrivial=False)
